@@ -111,6 +111,27 @@ def replay(scn):
                     what = _check(scn, res, a, codec, kinds, kind) or None
                 if what:
                     viol.append(dict(what=what, sig=signature(scn, "kind=%s/byname=%s" % (kind, byname)), variant=variant))
+        if op in ("cumsum", "cumprod"):
+            # narrow and boolean data: NumPy accumulates int8 / int32 / bool in the platform integer, float32 in float32
+            src = A.gamma(a_abs, A.LabelCodec(mixed=True), ["i"] * len(a_abs["dims"]))
+            small = np.nan_to_num(np.asarray(src.values, dtype=float)) % 5 + (1 if op == "cumprod" else 0)
+            for dt in (np.int8, np.int32, np.float32, bool, np.uint8):
+                vals = (small * (40 if dt in (np.int8, np.uint8) and op == "cumsum" else 1)).astype(dt)
+                b = A.DimArray(vals, axes=[ax.copy() for ax in src.axes])
+                calls += 1
+                try:
+                    r = getattr(b, op)(axis=d)
+                    e = getattr(np, op)(vals, axis=d)
+                    if r.values.dtype != e.dtype:
+                        what = "%s of %s data: dtype %s, NumPy gives %s" % (op, np.dtype(dt).name, r.values.dtype, e.dtype)
+                    elif not np.array_equal(r.values, e, equal_nan=True):
+                        what = "%s of %s data: %s, NumPy gives %s" % (op, np.dtype(dt).name, r.values.ravel().tolist()[:8], e.ravel().tolist()[:8])
+                    else:
+                        what = None
+                except Exception as ex:  # noqa
+                    what = "%s of %s data raised %s: %s" % (op, np.dtype(dt).name, type(ex).__name__, str(ex)[:150])
+                if what:
+                    viol.append(dict(what=what, sig=signature(scn, "dtype=%s" % np.dtype(dt).name), variant="dtype=%s" % np.dtype(dt).name))
     finally:
         np.seterr(**old)
     return dict(violations=viol, calls=calls)
